@@ -9,7 +9,7 @@
     order of the hash table as a parameter [order].
 
     Byte positions, token positions and lengths are [nat]; bytes are [N]. *)
-From Verif Require Import Base.Prelude Gen.Tables.
+From Verif Require Import Base.Prelude.
 From Coq Require Import Arith.
 
 Definition slice {A} (l : list A) (s e : nat) : list A := firstn (e - s) (skipn s l).
@@ -18,15 +18,21 @@ Definition is_nil {A} (l : list A) : bool := match l with [] => true | _ => fals
 
 (** * Tokenizers (core/src/diff.rs:32-77) *)
 
-Definition tab1 (l : list N) : N := hd 0%N l.
+(** The byte ranges of the [matches!] arm of [is_word_byte] and the [max_occurrences]
+    cut-off of [collect_unchanged_words_lcs]. They are compared with the values scraped from
+    the source (Gen/Tables.v) by [C03.tables_okb], in the proof build (Props/C03.v) and on
+    every correspondence case, so this file does not depend on the generated table. *)
+Definition word_r1 : N * N := (65, 90)%N.
+Definition word_r2 : N * N := (97, 122)%N.
+Definition word_r3 : N * N := (48, 57)%N.
+Definition word_single : N := 95%N.
+Definition word_r4 : N * N := (128, 255)%N.
+Definition max_occurrences : nat := 100.
 
-(** [is_word_byte]: the ranges of the [matches!] arm, scraped from the source. *)
+Definition in_range (r : N * N) (b : N) : bool := ((fst r <=? b) && (b <=? snd r))%N.
 Definition is_word_byte (b : N) : bool :=
-  ((tab1 DIFF_WORD_R1_LO <=? b) && (b <=? tab1 DIFF_WORD_R1_HI)
-   || (tab1 DIFF_WORD_R2_LO <=? b) && (b <=? tab1 DIFF_WORD_R2_HI)
-   || (tab1 DIFF_WORD_R3_LO <=? b) && (b <=? tab1 DIFF_WORD_R3_HI)
-   || (b =? tab1 DIFF_WORD_SINGLE)
-   || (tab1 DIFF_WORD_R4_LO <=? b) && (b <=? tab1 DIFF_WORD_R4_HI))%N.
+  in_range word_r1 b || in_range word_r2 b || in_range word_r3 b
+  || (b =? word_single)%N || in_range word_r4 b.
 
 (** [find_line_ranges]: [split_inclusive(b'\n')] with running offsets; no empty piece. *)
 Fixpoint line_ranges_go (l : bytes) (start pos : nat) : list (nat * nat) :=
@@ -455,10 +461,10 @@ Definition hunks (regions : list region) : list hunk :=
 (** The executable matching: histogram LCS over normalised tokens, table order = insertion
     order, cut-off scraped from the source. *)
 Definition M_hist : list bytes -> list bytes -> list (nat * nat) :=
-  collect_unchanged_words bytes_eqb (fun h => h) DIFF_MAX_OCCURRENCES.
+  collect_unchanged_words bytes_eqb (fun h => h) max_occurrences.
 (** The same with the table iterated in the opposite order. *)
 Definition M_hist_rev : list bytes -> list bytes -> list (nat * nat) :=
-  collect_unchanged_words bytes_eqb (@rev _) DIFF_MAX_OCCURRENCES.
+  collect_unchanged_words bytes_eqb (@rev _) max_occurrences.
 
 Definition diff_hunks (s : steps) (inputs : list bytes) : list hunk :=
   hunks (run_steps M_hist s inputs).
